@@ -32,7 +32,7 @@ LEVEL_NOTE = ('Exhaustive over relative placements on the small lattice only; la
 RULE = ("lattice: cases = (filter node subset, storage order), executions = response assignments x SED grids; irregular/object/package: one case per configuration; "
         "non-trivial = distinct (filter, SED grid) pairs whose overlap is non-empty and whose filter has a non-zero response")
 ASSUMPTIONS = ["non-negative responses, strictly positive distinct frequencies", "lattice exhaustive; beyond it a finite seed-derived family"]
-REQUIRED_CLASSES = ['rebinned-before-normalising', 'package-of-100-models-and-100-wavelengths', 'integer-response', 'filter-file-overwritten-and-read-again', 'bin-edge-on-filter-end', 'several-nodes-in-one-bin', 'filter-decreasing-nu', 'sed-decreasing-nu', 'partial-overlap-low', 'partial-overlap-high',
+REQUIRED_CLASSES = ['spectrum-resolving-a-narrow-filter', 'rebinned-before-normalising', 'package-of-100-models-and-100-wavelengths', 'integer-response', 'filter-file-overwritten-and-read-again', 'bin-edge-on-filter-end', 'several-nodes-in-one-bin', 'filter-decreasing-nu', 'sed-decreasing-nu', 'partial-overlap-low', 'partial-overlap-high',
                     'filter-outside-sed', 'empty-bin', 'normalized-flat', 'linearity', 'file-filter', 'pkg-v1', 'pkg-v2', 'pkg-errors', 'irregular', 'seds-with-different-grids', 'filter-nu-in-other-unit', 'two-filters-one-response-array']
 TIMEOUT = {'quick': 600, 'thorough': 3000}
 
@@ -342,6 +342,26 @@ def _object(ctx, case, rec, d):
     rec.cls('linearity')
     if fb.name != f.name or fb.central_wavelength != f.central_wavelength:
         rec.violation('rebin|metadata', sub, {})
+    # ---- a narrow filter (relative width 4e-4) on a spectrum that resolves it with 90 points: bins of a few parts in 10^6
+    nu0 = float(np.mean(nu_file))
+    fn = Filter()
+    fn.name = 'NARROW'
+    fn.central_wavelength = 2.0 * u.micron
+    fn.nu = np.array([nu0 * (1 - 2e-4), nu0 * (1 - 0.5e-4), nu0 * (1 + 1e-4), nu0 * (1 + 2e-4)]) * u.Hz
+    fn.response = np.array([0.0, 1.0, 0.6, 0.0])
+    fn.normalize()
+    sg = np.linspace(nu0 * (1 - 3e-4), nu0 * (1 + 3e-4), 90)
+    Rn, _, totn = convref.rebin_exact([Fr(float(x)) for x in fn.nu.value], [Fr(float(y)) for y in np.asarray(fn.response)], sg)
+    try:
+        rn = np.asarray(fn.rebin(sg * u.Hz).response, float)
+        rec.ev()
+        rec.trans()
+        rec.cls('spectrum-resolving-a-narrow-filter')
+        scale_n = max(abs(float(x)) for x in Rn)
+        if max(abs(float(Rn[j]) - rn[j]) for j in range(len(sg))) > 1e-9 * scale_n or abs(float(np.sum(rn)) - 1.0) > 1e-9:
+            rec.violation('rebin|value|narrow-filter-fine-grid', sub, {'sum_R': float(np.sum(rn)), 'expected_sum': float(totn), 'got': rn[40:46], 'exact': [float(x) for x in Rn[40:46]]})
+    except Exception as e:
+        rec.violation('rebin|exception|%s' % type(e).__name__, dict(sub, narrow=True), {'msg': str(e)[:200]})
     # ---- a response given as whole numbers (per cent, or a 0/1 top-hat), not normalised: R_i are still exact integrals
     for resp_i in (np.array([0, 100, 80, 60, 0]), np.array([0, 1, 1, 1, 0]), np.array([3, 7, 2], dtype=np.int32)):
         nn = np.sort(rng.uniform(lo, hi, len(resp_i)))
@@ -457,7 +477,7 @@ def _package(ctx, case, rec, d):
     # a third one reaching beyond the low-frequency (long-wavelength) end of the spectra
     f3x = np.sort(np.r_[lo * 0.4, rng.uniform(lo * 0.4, lo * 1.8, 3), lo * 1.8])[::-1]
     f3y = rng.uniform(0.2, 1.0, 5)
-    filters = [_mkfilter(f1x, f1y, 'FA', 3.0), _mkfilter(f2x, f2y, 'FB', 1.2), _mkfilter(f3x, f3y, 'FC', 20.0)]
+    filters = [_mkfilter(f1x, f1y, 'FA', 3.0), _mkfilter(f2x, f2y, 'FB', 1.2), _mkfilter(f3x, f3y, 'F.C2', 20.0)]          # (a filter name may contain a dot)
     filters[0].normalize()
     kw = {} if fmt == 'v1' else {'memmap': case['memmap']}
     try:
